@@ -16,7 +16,7 @@ use std::collections::{HashMap, HashSet};
 
 /// vocabularies: object construction, aliasing (DUP, memo) and in-place mutation. Two small
 /// vocabularies explored separately reach deeper than one large one.
-pub const VOCAB_OBJECTS: [&str; 10] = ["GLOBAL", "EMPTY_TUPLE", "EMPTY_DICT", "NONE", "REDUCE", "BUILD", "BINPUT", "BINGET", "DUP", "SETITEM"];
+pub const VOCAB_OBJECTS: [&str; 11] = ["GLOBAL", "EMPTY_TUPLE", "EMPTY_DICT", "NONE", "REDUCE", "BUILD", "BINPUT", "BINGET", "DUP", "SETITEM", "TUPLE1"];
 pub const VOCAB_CONTAINERS: [&str; 11] = ["EMPTY_LIST", "EMPTY_TUPLE", "EMPTY_DICT", "NONE", "APPEND", "SETITEM", "TUPLE1", "TUPLE2", "DUP", "BINPUT", "BINGET"];
 
 /// MARK-delimited bulk opcodes and sets (protocol >= 4 for EMPTY_SET / ADDITEMS)
